@@ -23,7 +23,7 @@ from rules.C12 import file_parser
 from rules.C01 import check_coord, check_search, check_units, check_queue
 
 
-def check_filter(ctx, out, fp):
+def check_filter(ctx, out, fp, rule="C02.filter"):
     n = 0
     E = ctx.expr(fp)
     clos = None
@@ -33,12 +33,30 @@ def check_filter(ctx, out, fp):
             if e[0] == "agg" and e[1].startswith("closure:"):
                 clos = ctx.facts.body(e[1][8:])
     if clos is None:
-        out.inst("C02.filter", 0, 8, note="block filter closure not found in the file parser")
+        out.inst(rule, 0, 8, note="block filter closure not found in the file parser")
         return
     enum = ctx.facts.adts.get("blockwatch::blocks::BlocksFilter")
     if enum is None:
-        out.inst("C02.filter", 0, 8, note="BlocksFilter enum not found")
+        out.inst(rule, 0, 8, note="BlocksFilter enum not found")
         return
+    # the filter carries no state from one block to the next
+    for bi, j, s in fp.assigns():
+        rv = s["rv"]
+        if rv["k"] == "agg" and rv.get("path") == clos.defpath:
+            for nm, op in zip(rv.get("fields", []), rv["ops"]):
+                pl = util.op_place(op)
+                if pl is not None and fp.local_ty(pl["l"]).startswith("&mut"):
+                    out.viol(rule, rule + "|mutable-capture|%s" % nm, ctx.where(fp, s["span"]),
+                             "the per-block filter captures `%s` mutably: whether a block is selected then depends on the blocks visited before it (e.g. a nested block no longer sees a change its enclosing block has consumed)" % nm)
+    # the tests are made against the parser's own line-change argument
+    for bi, t in clos.calls():
+        if callee_matches(t, r"(content|start_tag)_intersects_with_any$"):
+            labs = ctx.prov.resolve_upvars(clos, ctx.prov.read_operand(clos, t["args"][1]))
+            ps = {l[1] for l in labs if l[0] == "param"}
+            extra = sorted({l[1].split("::")[-1] for l in labs if l[0] == "call" and re.search(r"Index|split|partition_point|binary_search|iter|skip|take|get", l[1])})
+            if ps != {2} or extra:
+                out.viol(rule, rule + "|changes-arg", ctx.where(clos, t["span"]),
+                         "the intersection test is not made against the file's complete line-change list (parameters %s, through %s): every block must be tested against all changes of the file" % (sorted(ps), extra))
     vmap = {v["name"]: v["vi"] for v in enum["variants"]}
     rows = []
     for fname, c, t in itertools.product(vmap, (True, False), (True, False)):
@@ -66,16 +84,16 @@ def check_filter(ctx, out, fp):
                     discr_atoms[path] = vmap[fname]
                     m.atoms = dict(discr_atoms)
                 else:
-                    out.viol("C02.filter", "C02.filter|unknown-input", ctx.where(clos), "the block filter depends on a captured value %s other than the filter mode and the two intersection tests" % (path,))
+                    out.viol(rule, rule + "|unknown-input", ctx.where(clos), "the block filter depends on a captured value %s other than the filter mode and the two intersection tests" % (path,))
                     return
             except O.Unknown as u:
-                out.viol("C02.filter", "C02.filter|unanalysable", ctx.where(clos), "the block filter cannot be evaluated on its truth table: %s" % u)
+                out.viol(rule, rule + "|unanalysable", ctx.where(clos), "the block filter cannot be evaluated on its truth table: %s" % u)
                 return
         selected = isinstance(res, dict) and res.get("__variant") == "Some"
         want = (fname == "All") or c or t
         rows.append((fname, c, t, selected))
         if selected != want:
-            out.viol("C02.filter", "C02.filter|row|%s|c=%s|t=%s" % (fname, c, t), ctx.where(clos),
+            out.viol(rule, rule + "|row|%s|c=%s|t=%s" % (fname, c, t), ctx.where(clos),
                      "with filter=%s, content touched=%s, start tag touched=%s the block is %s; expected %s" % (fname, c, t, "selected" if selected else "dropped", "selected" if want else "dropped"))
         else:
             n += 1
@@ -83,16 +101,9 @@ def check_filter(ctx, out, fp):
             payload = res.get("0")
             if isinstance(payload, dict):
                 if payload.get("is_content_modified") is not c or payload.get("_is_start_tag_modified") is not t:
-                    out.viol("C02.filter", "C02.filter|flags|%s|c=%s|t=%s" % (fname, c, t), ctx.where(clos),
+                    out.viol(rule, rule + "|flags|%s|c=%s|t=%s" % (fname, c, t), ctx.where(clos),
                              "the stored flags are (content=%s, tag=%s) although the tests gave (content=%s, tag=%s)" % (payload.get("is_content_modified"), payload.get("_is_start_tag_modified"), c, t))
-    out.inst("C02.filter", n, 8, ["%s c=%s t=%s -> %s" % r for r in rows], exhaustive=True, note="2 filter modes x 2 x 2 valuations, evaluated on the closure's MIR")
-    # the tests are made against the parser's own line-change argument
-    for bi, t in clos.calls():
-        if callee_matches(t, r"(content|start_tag)_intersects_with_any$"):
-            labs = ctx.prov.resolve_upvars(clos, ctx.prov.read_operand(clos, t["args"][1]))
-            ps = {l[1] for l in labs if l[0] == "param"}
-            if ps != {2}:
-                out.viol("C02.filter", "C02.filter|changes-arg", ctx.where(clos, t["span"]), "the intersection test does not use the file parser's line-change parameter")
+    out.inst(rule, n, 8, ["%s c=%s t=%s -> %s" % r for r in rows], exhaustive=True, note="2 filter modes x 2 x 2 valuations, evaluated on the closure's MIR")
 
 
 def check_mode(ctx, out, fp):
